@@ -8,6 +8,7 @@ LEAN_MODULES = ["ViaProofs.C19"]
 LEMMA_MODULES = ['ViaProofs.ConnLemmas', 'ViaProofs.C09', 'ViaProofs.ConnWrites']
 REQUIRED_THEOREMS = ['Via.C19_invariant', 'Via.C19_close_notify_after_write', 'Via.C19_shutdown_keeps_socket_open', 'Via.C19_close_notify_ordering']
 LEVEL = "proof"
+LEVEL_TEXT = ('PARTIAL: all connection-layer theorems are proved for both adaptor flavours, plus close_notify ordering over every TLS-flavour history; OpenSSL/asio behaviour is modelled by the adaptor contract and validated by real TLS loopback runs (clean close, abrupt close, reset mid-response). Known finding C19-KF1 (use-after-free when the peer resets while a large response is being written).')
 TRUSTED_BASE = S.SIM_TRUSTED
 ASSUMPTIONS = S.SIM_ASSUMPTIONS
 compare = S.compare
